@@ -33,6 +33,10 @@ class Ctx:
     _STATE_RULES = ('stale', 'memo', 'cache', 'slot', 'lazy-generator', 'late-binding', 'discarded', 'shared', 'state', 'aliased', 'cursor', '|clock', 'C18.', 'one-shot')
 
     def violation(self, rule, instance, where=None, detail=None, key=None):
+        # (a rule that followed every callee on the path at hand and found no unread call says so: 'READ: ...' - absence is then a finding, not a blind spot)
+        read_all = isinstance(detail, str) and detail.startswith('READ: ')
+        if read_all:
+            detail = detail[6:]
         # A deviation is claimed only for code that was read.  Evidence that speaks of private storage the pinned tree did not have (self._accounts[...] where the
         # rule talks about self.portfolios[...]) shows a representation this rule does not relate to the fields it is stated over: left open, not reported.
         try:
@@ -48,6 +52,33 @@ class Ctx:
                 self._rec('UNDECIDED', rule, instance, where, 'the evidence reads storage this tree introduces (%s), which the rule does not relate to the fields it speaks about: %s'
                           % (', '.join('self.' + h_ for h_ in hit), str(detail)[:160]))
                 return
+        if not any(s_ in k_ for s_ in self._STATE_RULES):
+            try:
+                newdefs = self.M.new_definitions()
+            except Exception:
+                newdefs = {}
+            if newdefs:
+                import re
+                text = '%s %s' % (instance, detail if detail is not None else '')
+                if rule in ('C15.S1', 'C01.S3b'):
+                    # path rules with every callee followed: functions are named as the PLACES of writes and guards; only the refusing site itself counts
+                    text = str(instance).split(' [')[0]
+                allnew = {n_ for ns_ in newdefs.values() for n_ in ns_ if not n_.startswith('__')}
+                named = sorted(n_ for n_ in allnew if len(n_) > 3 and re.search(r'(?<![A-Za-z0-9_])%s(?![A-Za-z0-9_])' % re.escape(n_), text))
+                if named:
+                    # the evidence names a class or function this tree introduces (left as a call, or as the type of an object): not read to the end
+                    self._rec('UNDECIDED', rule, instance, where, 'the evidence goes through %s, which this tree introduces and the rule does not read: %s' % (', '.join(named[:3]), str(detail)[:160]))
+                    return
+                site_mod = str(where).split(':')[0] if where else None
+                d_ = str(detail if detail is not None else '').strip()
+                absence = d_ in ('0', '[]', 'None', '{}', '()', "['[]']", '') or re.search(
+                    r'no longer writes|\b0 writes|changes by 0\b|\b0 optimiser|\b0 sizer|no test |never tests|matched 0|returns without reaching|^\d+ (fee|price|broker|dequeue)|: 0 [a-z]', d_)
+                if absence and site_mod in newdefs and not read_all:
+                    # something the rule looks for was NOT found, in a module whose classes/functions this tree re-arranged: "absent" cannot be told from "moved to where
+                    # the rule does not look"
+                    self._rec('UNDECIDED', rule, instance, where, 'nothing found where the rule looks, in a module this tree re-arranged (new: %s): %s'
+                              % (', '.join(sorted(newdefs[site_mod])[:3]), d_[:120]))
+                    return
         self._rec('VIOLATION', rule, instance, where, detail, key)
 
     def undecided(self, rule, instance, where=None, detail=None):
